@@ -370,3 +370,66 @@ func (o *Once) Do(f func()) {
 	}()
 	f()
 }
+
+// Locker is what a Cond needs of its lock (verifsim.Mutex and the write side
+// of verifsim.RWMutex satisfy it, like sync.Locker).
+type Locker interface {
+	Lock()
+	Unlock()
+}
+
+// Cond replaces sync.Cond. Under the simulator Wait releases L, parks until a
+// later Signal / Broadcast has released it, and takes L again; which of several
+// waiters a Signal releases is the scheduler's decision like everything else.
+type Cond struct {
+	L Locker
+
+	real *sync.Cond
+	once sync.Once
+	// tickets: each waiter takes the next ticket; Signal raises `released` by
+	// one (if a waiter is left), Broadcast to the number of tickets handed out
+	next, released int
+}
+
+func NewCond(l Locker) *Cond { return &Cond{L: l} }
+
+func (c *Cond) realCond() *sync.Cond {
+	c.once.Do(func() { c.real = sync.NewCond(c.L) })
+	return c.real
+}
+
+func (c *Cond) Wait() {
+	s := active
+	if s == nil {
+		c.realCond().Wait()
+		return
+	}
+	c.next++
+	ticket := c.next
+	c.L.Unlock()
+	s.logf("g%d cond.wait %p", s.cur.id, c)
+	s.park("cond.wait", func() bool { return c.released < ticket })
+	c.L.Lock()
+}
+
+func (c *Cond) Signal() {
+	s := active
+	if s == nil {
+		c.realCond().Signal()
+		return
+	}
+	if c.released < c.next {
+		c.released++
+	}
+	s.park("cond.signal", nil)
+}
+
+func (c *Cond) Broadcast() {
+	s := active
+	if s == nil {
+		c.realCond().Broadcast()
+		return
+	}
+	c.released = c.next
+	s.park("cond.broadcast", nil)
+}
